@@ -517,8 +517,21 @@ Section WithV.
     | Some sh => make_empty_hdr (trim_ones sh) (aff h) (sdim h)
     end.
 
+  (** statements of [_copy_sample] that run once per source class even when that class holds no key *)
+  Definition subset_prelude (h hr : hdr) (dim : nat) (c : cls) : res unit :=
+    if cls_eqb c GConst || odim_is (sdim h) dim || (dim <? 3) then Ok tt else
+    let sb := if dim =? 3 then BTime else BVector in
+    if is_samples c then
+      if negb (cbase_eqb (base_of c) sb) && cls_eqb c TSamples
+      then do _ <- multiplicity hr c; Ok tt else Ok tt
+    else
+      if negb (cbase_eqb (base_of c) sb) && negb (cbase_eqb (base_of c) BGlobal) && cbase_eqb sb BTime
+      then match n_slices hr with None => Err EType | Some _ => Ok tt end
+      else Ok tt.
+
   Definition get_subset (e : ext) (dim idx : nat) : res ext :=
     do hr <- subset_hdr (hdr_of e) dim;
+    do _ <- mapM (subset_prelude (hdr_of e) hr dim) (valid_classes (hdr_of e));
     do ents <- map_keys (fun k => subset_k (hdr_of e) hr dim idx (lookup_e e k)) (dedup_keys [] (keys_e e));
     Ok (mk_ext hr ents).
 
